@@ -22,6 +22,14 @@ def cases(rng, tier):
         yield Case(program=identity_program(rng), tag='fn-identity', nontrivial=True, big=True)
     for i in range(n // 3):
         yield Case(program=core_program(rng, rng.randint(2, 5)), tag='core-byname', nontrivial=True, big=True)
+    # Euclid's algorithm g(x, y) = (y = 0)(x, g(y, x ㄴㅁ y)) — `ByNameP.evaluator_gcd` proves the evaluator computes gcd a b for
+    # every pair of naturals; here the implementation is compared with that value (and with the reference evaluator)
+    import math as _math
+    for _ in range(12 if tier == 'quick' else 300):
+        a_, b_ = rng.choice([(0, 0), (rng.randint(0, 40), rng.randint(0, 40)), (rng.randint(0, 10 ** 6), rng.randint(0, 10 ** 6)),
+                             (rng.randint(1, 9) * 2 ** rng.randint(0, 30), rng.randint(1, 9) * 2 ** rng.randint(0, 30))])
+        prog = f"{gen.enc(a_)} {gen.enc(b_)} (ㄱㅇㄱ ((ㄴㅇㄱ) (ㄱㅇㄱ ㄴㅇㄱ ㄴㅁㅎㄷ) ㄱㅇ ㅎㄷ) (ㄴㅇㄱ ㄱ ㄴㅎㄷ) ㅎㄷ ㅎ) ㅎㄷ"
+        yield Case(program=prog, variants=(gen.enc(_math.gcd(a_, b_)),), tag='gcd', nontrivial=True, big=True)
     for kind, prog in index_programs():
         yield Case(program=prog, tag='index-' + kind, nontrivial=True, big=True)
     # every syntactic form at random (untyped): the model is the oracle, errors included
@@ -78,6 +86,9 @@ def core_program(rng, depth=4):
             return f"({gint(d - 1, scope)} {gint(d - 1, scope)} ㄷㅎㄷ)"
         if c < 0.4:
             return f"({gint(d - 1, scope)} {gint(d - 1, scope)} ㄱㅎㄷ)"
+        if c < 0.43:              # remainder by a non-zero literal / by an arbitrary integer expression (zero: an exception, no by-name value)
+            dv = enc(rng.choice([1, 2, 3, 7, -2, -5, 10])) if rng.random() < 0.8 else gint(d - 1, scope)
+            return f"({gint(d - 1, scope)} {dv} ㄴㅁㅎㄷ)"
         if c < 0.55:
             return f"({gint(d - 1, scope)} {gint(d - 1, scope)} {gbool(d - 1, scope)} ㅎㄷ)"
         lists = [(fi, pi, ty) for fi, fr in enumerate(reversed(scope)) for pi, ty in enumerate(fr) if isinstance(ty, tuple)]
